@@ -309,5 +309,6 @@ def h_canary():
 
 
 def harnesses():
-    return [h_remove_node(), h_add_node(), h_add_relation(), h_ensure_registered(), h_ensure_unregistered(),
+    from .C13 import h_sweep          # the lazy sweep is part of what C14 relies on (proved in C13's module)
+    return [h_sweep(), h_remove_node(), h_add_node(), h_add_relation(), h_ensure_registered(), h_ensure_unregistered(),
             h_wrapped_instance_ctor(), h_relation_post_init(), h_canary()]
